@@ -530,7 +530,7 @@ func TestC10MapperTable(t *testing.T) {
 }
 
 func TestC10MapperFunction(t *testing.T) {
-	rec := vt.NewRec(t, "C10", "mapper-function", "mapper(prefix, identifier) over word templates W1W2 / W1__W2 / W1_W2 with words from the table's three families (Capitalised, lower, ALLCAPS; same family on both sides) and over arbitrary strings of the identifier alphabet: documented image for template instances, determinism and totality (no panic) for everything; non-trivial = template instance; distinct by input")
+	rec := vt.NewRec(t, "C10", "mapper-function", "mapper(prefix, identifier) over word templates W1W2 / W1__W2 / W1_W2 with words from the table's three families (Capitalised, lower, ALLCAPS; same family on both sides) and over arbitrary strings of the identifier alphabet: documented image for template instances (alone, below a prefix, below an unnamed group), determinism, totality (no panic) and canonical form (no leading/trailing separator; rooted clean path) for everything; non-trivial = template instance; distinct by input")
 	rapid.Check(t, func(t *rapid.T) {
 		fam := rapid.SampledFrom([]string{"cap", "lower", "caps", "any"}).Draw(t, "family")
 		if fam == "any" {
@@ -550,6 +550,15 @@ func TestC10MapperFunction(t *testing.T) {
 				if a != b {
 					t.Fatalf("mapper(%q,%q) is not deterministic: %q then %q", prefix, name, a, b)
 				}
+			}
+			// canonical form: names are joined by the separator, never begin (RPC) or end with
+			// it, and the HTTP form is a rooted clean path - this is what makes a group prefix
+			// (the mapper applied to a prefix alone) composable with the names below it
+			if g := erpc.RPCServiceMethodMapper(prefix, name); strings.HasPrefix(g, ".") || strings.HasSuffix(g, ".") {
+				t.Fatalf("RPC mapper(%q,%q) = %q begins or ends with the separator", prefix, name, g)
+			}
+			if g := erpc.HTTPServiceMethodMapper(prefix, name); !strings.HasPrefix(g, "/") || (g != "/" && strings.HasSuffix(g, "/")) || strings.Contains(g, "//") {
+				t.Fatalf("HTTP mapper(%q,%q) = %q is not a rooted clean path", prefix, name, g)
 			}
 			return
 		}
@@ -587,6 +596,21 @@ func TestC10MapperFunction(t *testing.T) {
 		}
 		if g := erpc.RPCServiceMethodMapper("", in); g != rpc {
 			t.Fatalf("RPC mapper(%q) = %q, the documented rule for %s gives %q", in, g, shape, rpc)
+		}
+		// with a prefix ("such as user/get", "User.Get"), also when the prefix is itself the
+		// mapper's image of a group name, and below an unnamed group
+		pw := rapid.SampledFrom([]string{"api", "v1", "User", "a_b"}).Draw(t, "pw")
+		if g := erpc.HTTPServiceMethodMapper(pw, in); g != "/"+pw+http {
+			t.Fatalf("HTTP mapper(%q,%q) = %q, want %q", pw, in, g, "/"+pw+http)
+		}
+		if g := erpc.RPCServiceMethodMapper(pw, in); g != pw+"."+rpc {
+			t.Fatalf("RPC mapper(%q,%q) = %q, want %q", pw, in, g, pw+"."+rpc)
+		}
+		if g := erpc.HTTPServiceMethodMapper(erpc.HTTPServiceMethodMapper(erpc.HTTPServiceMethodMapper("", pw), ""), in); g != erpc.HTTPServiceMethodMapper(erpc.HTTPServiceMethodMapper("", pw), in) {
+			t.Fatalf("HTTP mapper: an unnamed group below %q changes the name of %q to %q", pw, in, g)
+		}
+		if g := erpc.RPCServiceMethodMapper(erpc.RPCServiceMethodMapper(erpc.RPCServiceMethodMapper("", pw), ""), in); g != erpc.RPCServiceMethodMapper(erpc.RPCServiceMethodMapper("", pw), in) {
+			t.Fatalf("RPC mapper: an unnamed group below %q changes the name of %q to %q", pw, in, g)
 		}
 	})
 }
